@@ -236,6 +236,35 @@ func (e *EvalCtx) eval(n *XNode) Val {
 			}
 			return S{and(variants...), boolT}
 		}
+		if !e.nopol && ((n.Op == "forall" && asHyp) || (n.Op == "exists" && !asHyp)) && len(n.Bind) == 2 &&
+			sortOfType(e.typeByName(n.Bind[0].Type)) == "Int" && sortOfType(e.typeByName(n.Bind[1].Type)) == "Int" {
+			// two index variables (e.g. pairwise distinctness): one re-parameterised copy over both absolute indices with a multi-pattern
+			qa, qb := "q_"+n.Bind[0].Name, "q_"+n.Bind[1].Name
+			pick := func(q, other string) (sub, pat string, ok bool) {
+				for _, r := range reads {
+					shift, lin := linearShift(r.idx, q)
+					if !lin || strings.Contains(r.ref, "q_") || strings.Contains(r.off, "q_") || strings.Contains(strings.Join(r.arrs, " "), "q_") || strings.Contains(r.idx, other) {
+						continue
+					}
+					for _, a := range r.arrs {
+						if strings.Contains(body, "(select "+a+" ") {
+							return "(- " + q + "_abs " + plus(r.off, shift) + ")", fmt.Sprintf("(select (select %s %s) %s_abs)", a, r.ref, q), true
+						}
+					}
+				}
+				return "", "", false
+			}
+			sa, pa, oka := pick(qa, qb)
+			sb, pb, okb := pick(qb, qa)
+			if oka && okb {
+				nb := replaceSym(replaceSym(body, qa, sa), qb, sb)
+				v := fmt.Sprintf("(%s ((%s_abs Int) (%s_abs Int)) (! %s :pattern (%s %s)))", n.Op, qa, qb, nb, pa, pb)
+				if n.Op == "exists" {
+					return S{or(orig, v), boolT}
+				}
+				return S{and(orig, v), boolT}
+			}
+		}
 		return S{orig, boolT}
 	}
 	e.fail("unsupported expression node %s", n.Op)
@@ -298,6 +327,13 @@ func (e *EvalCtx) ident(name string) Val {
 		return v
 	}
 	if v, ok := e.env[name]; ok {
+		if c, isCell := v.(CellV); isCell {
+			srt := sortOfType(c.P.Elem)
+			if srt == "" || c.P.Idx != "" {
+				e.fail("variable %s lives in a memory cell of a type that contracts cannot read", name)
+			}
+			return S{app("select", e.heap(c.P.Key, arrSort("Int", srt)), c.P.Ref), c.P.Elem}
+		}
 		return v
 	}
 	switch name {
@@ -881,7 +917,12 @@ func (e *EvalCtx) call(n *XNode) Val {
 	return nil
 }
 
-func (e *EvalCtx) typeInv(v Val) string {
+// typeViews: the view clauses of the object's type instantiated for this object (definitional, see assumeTypeInvariants).
+func (e *EvalCtx) typeViews(v Val) string { return e.typeClauses(v, true) }
+
+func (e *EvalCtx) typeInv(v Val) string { return e.typeClauses(v, false) }
+
+func (e *EvalCtx) typeClauses(v Val, views bool) string {
 	var t types.Type
 	switch x := v.(type) {
 	case S:
@@ -905,7 +946,11 @@ func (e *EvalCtx) typeInv(v Val) string {
 		return "true"
 	}
 	var cs []string
-	for _, cl := range tc.Invariant {
+	clauses := tc.Invariant
+	if views {
+		clauses = tc.Views
+	}
+	for _, cl := range clauses {
 		n, err := parseXExpr(cl.Text)
 		if err != nil {
 			e.fail("%v", err)
